@@ -54,11 +54,12 @@ pub struct Case {
 
 /// principals: 0..4 users, 5 = hub, 6 = sink contract, 7 = owner
 fn who(i: u8) -> String {
-    match i % 8 {
+    match i {
         5 => HUB.to_string(),
         6 => SINK.to_string(),
         7 => OWNER.to_string(),
-        k => format!("acct{}", k),
+        // indices 8.. are further plain accounts (more than one 30-entry page of AllAccounts)
+        k => format!("acct{}", k % 48),
     }
 }
 
@@ -71,7 +72,7 @@ fn op_strategy() -> BoxedStrategy<TokOp> {
     let u = || 0u8..5;
     let k = || 0u8..8;
     prop_oneof![
-        6 => (u(), p(), k()).prop_map(|(from, to, k)| TokOp::Transfer { from, to, k }),
+        6 => (u(), prop_oneof![3 => p(), 1 => 8u8..48], k()).prop_map(|(from, to, k)| TokOp::Transfer { from, to, k }),
         2 => (u(), k()).prop_map(|(from, k)| TokOp::Send { from, k }),
         4 => (p(), p(), prop_oneof![Just(0u128), 1u128..1000, 1u128..1_000_000_000_000u128]).prop_map(|(by, to, a)| TokOp::Mint { by, to, amount: Uint128::new(a) }),
         3 => (p(), k()).prop_map(|(by, k)| TokOp::Burn { by, k }),
@@ -108,6 +109,16 @@ pub fn strategy() -> BoxedStrategy<Case> {
             if roll % 5 != 0 {
                 let mut seen = std::collections::BTreeSet::new();
                 initial.retain(|(i, _)| seen.insert(who(*i)));
+            }
+            let mut ops = ops;
+            if roll % 8 == 7 {
+                // more accounts than one page of AllAccounts
+                initial.retain(|(i, _)| *i != 0);
+                initial.insert(0, (0, Uint128::new(100_000)));
+                let n = 31 + (roll as u8 % 9);
+                let mut pre: Vec<TokOp> = (0..n).map(|j| TokOp::Transfer { from: 0, to: 8 + j, k: 1 }).collect();
+                pre.extend(ops);
+                ops = pre;
             }
             Case { stsei, name, symbol, decimals, initial, ops }
         })
@@ -170,8 +181,13 @@ impl C18 {
         if sum != sup {
             return Some(v("sum-of-balances", format!("{}: balances of all {} accounts sum to {} but total_supply is {}", tname, accounts.len(), sum, sup)));
         }
-        for i in 0..8u8 {
-            let a = who(i);
+        let mut addrs: Vec<String> = (0..8u8).map(who).collect();
+        for a in m.bal.keys() {
+            if !addrs.contains(a) {
+                addrs.push(a.clone());
+            }
+        }
+        for a in addrs {
             let b = bal(w, TOK, &a);
             if b != m.bal.get(&a).copied().unwrap_or(0) {
                 return Some(v("balance-differs-from-model", format!("{}: {} holds {} but the reference ledger says {}", tname, a, b, m.bal.get(&a).copied().unwrap_or(0))));
@@ -215,7 +231,7 @@ impl Prop for C18 {
     }
     fn cases(&self, tier: Tier) -> u32 {
         match tier {
-            Tier::Quick => 40000,
+            Tier::Quick => 25000,
             Tier::Thorough => 400_000,
         }
     }
@@ -471,6 +487,9 @@ impl Prop for C18 {
         out.nontrivial = crossed_expiry && rejected;
         if crossed_expiry {
             out.label("allowance_expiry_crossed");
+        }
+        if m.bal.values().filter(|b| **b > 0).count() > 30 {
+            out.label("more_than_one_page_of_accounts");
         }
         out.label(if c.stsei { "stsei" } else { "bsei" });
         out
